@@ -87,19 +87,23 @@ fn baseline_extent(b: u64) -> (u64, u64) {
         return x;
     }
     let plan = baseline(b);
-    let out = crate::exec::run(&plan, dsim::Tape::search(plan.seed));
-    let w = &out.world;
-    let workers = plan.server.as_ref().unwrap().workers as usize;
-    let mut serving: Vec<u64> = Vec::new();
-    for rec in &w.history {
-        if let dsim::Ev::Log { msg, .. } = &rec.ev {
-            if msg.starts_with("Deliberate response errors") {
-                serving.push(rec.step);
+    // the baseline itself runs in a forked child, like every other execution
+    let x: (u64, u64) = crate::driver::isolated(|| {
+        let out = crate::exec::run(&plan, dsim::Tape::search(plan.seed));
+        let w = &out.world;
+        let workers = plan.server.as_ref().unwrap().workers as usize;
+        let mut serving: Vec<u64> = Vec::new();
+        for rec in &w.history {
+            if let dsim::Ev::Log { msg, .. } = &rec.ev {
+                if msg.starts_with("Deliberate response errors") {
+                    serving.push(rec.step);
+                }
             }
         }
-    }
-    let start = if serving.len() >= workers { *serving.iter().max().unwrap() + 1 } else { w.steps };
-    let x = (start, w.steps);
+        let start = if serving.len() >= workers { *serving.iter().max().unwrap() + 1 } else { w.steps };
+        (start, w.steps)
+    })
+    .unwrap_or((u64::MAX / 4, u64::MAX / 4));
     BASE.with(|m| m.borrow_mut().insert(b, x));
     x
 }
